@@ -304,6 +304,7 @@ func Check(id, tier string) int {
 	// classify
 	var violations []string
 	var knownHit []string
+	knownRefuted := 0
 	replayDir := filepath.Join(verifDir, "replays", id)
 	var samples []interface{}
 	for _, g := range res.groups {
@@ -324,6 +325,10 @@ func Check(id, tier string) int {
 			}
 		}
 		if kfMatch != nil {
+			// a refuted obligation recorded as a known finding is not part of the proof claim: it is reported
+			// separately (obligations_refuted_known_finding) and never counted as an obligation to discharge
+			res.obligations--
+			knownRefuted++
 			knownHit = append(knownHit, fmt.Sprintf("KNOWN-FINDING: property=%s %s: %s", id, g.Name, kfMatch.Description))
 			continue
 		}
@@ -393,34 +398,54 @@ func Check(id, tier string) int {
 		level = "proof"
 	}
 	cov := map[string]interface{}{
-		"obligations":              res.obligations,
-		"discharged":               res.discharged,
-		"checker_cmd":              fmt.Sprintf("/verif/bin/govc check %s --tier %s", id, tier),
-		"trusted_base":             trusted,
-		"samples":                  samples,
-		"functions_under_contract": res.funcs,
-		"backends":                 res.backends,
-		"solver_time_s":            round3(res.solverSecs),
-		"cover_obligations":        res.covers,
-		"cover_satisfiable":        res.coverOK,
-		"known_findings_matched":   knownHit,
-		"contract_files":           uniq(res.files),
-		"explanation":              cfg.Explanation,
-		"undecided_clauses":        cfg.Undecided,
-		"lean":                     leanNotes,
-		"engine_errors":            res.engineErrors,
-		"technique":                cfg.Technique,
+		"obligations":                       res.obligations,
+		"discharged":                        res.discharged,
+		"obligations_generated":             res.obligations + knownRefuted,
+		"obligations_refuted_known_finding": knownRefuted,
+		"checker_cmd":                       fmt.Sprintf("/verif/bin/govc check %s --tier %s", id, tier),
+		"trusted_base":                      trusted,
+		"samples":                           samples,
+		"functions_under_contract":          res.funcs,
+		"backends":                          res.backends,
+		"solver_time_s":                     round3(res.solverSecs),
+		"cover_obligations":                 res.covers,
+		"cover_satisfiable":                 res.coverOK,
+		"known_findings_matched":            knownHit,
+		"contract_files":                    uniq(res.files),
+		"explanation":                       cfg.Explanation,
+		"undecided_clauses":                 cfg.Undecided,
+		"lean":                              leanNotes,
+		"engine_errors":                     res.engineErrors,
+		"technique":                         cfg.Technique,
 	}
 	if len(samples) == 0 {
-		cov["samples"] = []interface{}{"(no non-trivial obligation)"}
+		// every obligation was decided without an SMT query (static effect analysis / syntactically true): show those
+		for _, g := range res.groups {
+			if g.Status == "discharged" && len(samples) < 6 {
+				samples = append(samples, map[string]interface{}{"obligation": g.Name, "kind": g.Kind, "paths": len(g.Obls), "reads": g.Obls[0].Desc, "pos": g.Obls[0].Pos, "backend": g.Obls[0].Result.Solver, "secs": round3(g.Secs)})
+			}
+		}
+		cov["samples"] = samples
+		if len(samples) == 0 {
+			cov["samples"] = []interface{}{"(no discharged obligation)"}
+		}
 	}
 	ev := map[string]interface{}{
 		"property_id": id, "tier": tier, "seed": seedFromEnv(), "level": level,
 		"coverage": cov, "assumptions": assumptions, "wall_s": round3(time.Since(start).Seconds()), "violations": len(violations),
 	}
-	os.MkdirAll(filepath.Join(verifDir, "evidence"), 0o755)
+	// GOVC_EVIDENCE_DIR redirects the evidence file (used by seedtest.sh so that runs against a deliberately
+	// broken tree never overwrite the evidence of the unchanged tree)
+	evDir := filepath.Join(verifDir, "evidence")
+	if d := os.Getenv("GOVC_EVIDENCE_DIR"); d != "" {
+		evDir = d
+	}
+	os.MkdirAll(evDir, 0o755)
 	evb, _ := json.MarshalIndent(ev, "", " ")
-	os.WriteFile(filepath.Join(verifDir, "evidence", id+".json"), evb, 0o644)
+	if err := os.WriteFile(filepath.Join(evDir, id+".json"), evb, 0o644); err != nil {
+		fmt.Fprintf(os.Stderr, "cannot write evidence: %v\n", err)
+		return 2
+	}
 
 	for _, l := range knownHit {
 		fmt.Println(l)
@@ -428,7 +453,7 @@ func Check(id, tier string) int {
 	for _, l := range violations {
 		fmt.Println(l)
 	}
-	fmt.Printf("%s: %d obligations, %d discharged, %d known findings, %d violations, %d engine errors, %.1fs\n",
+	fmt.Printf("%s: %d obligations, %d discharged, %d refuted and recorded as known findings (not counted as obligations), %d violations, %d engine errors, %.1fs\n",
 		id, res.obligations, res.discharged, len(knownHit), len(violations), len(res.engineErrors), time.Since(start).Seconds())
 	for _, er := range res.engineErrors {
 		fmt.Println("ENGINE-ERROR:", er)
